@@ -514,7 +514,8 @@ export class TypeGen {
     const gens = this.decls.filter((d) => (d.d === "alias" || d.d === "iface") && d.params && d.params.length);
     if (!gens.length) return this.leaf();
     const g = this.rng.pick(gens);
-    return A.ref(g.name, g.params.map(() => (this.rng.chance(0.7) ? this.scalarLeaf() : this.type(Math.min(1, depth - 1)))));
+    // (a union of scalars now and then: conditional types over the parameter distribute over it)
+    return A.ref(g.name, g.params.map(() => (this.rng.chance(0.2) ? A.union([this.scalarLeaf(), this.scalarLeaf(), A.lit("a")]) : this.rng.chance(0.7) ? this.scalarLeaf() : this.type(Math.min(1, depth - 1)))));
   }
   // a type guaranteed to evaluate in the reference (re-draws on Unsupported)
   goodType(depth) {
@@ -566,10 +567,10 @@ export class TypeGen {
             ext.push(A.ref(n));
           }
           const own = this.props(depth, 1 + r.below(2)).filter((p) => !used.has(p.name));
-          return tryAdd({ d: "iface", name: this.fresh("I"), params: [], ext, props: own, index: null, doc });
+          return tryAdd({ d: "iface", name: this.fresh("I"), params: [], ext, props: own, index: null, doc, splitAt: own.length >= 2 && r.chance(0.15) ? 1 : 0 });
         }
         const o = this.objectType(depth);
-        return tryAdd({ d: "iface", name: this.fresh("I"), params: [], ext: [], props: o.props, index: o.index, doc });
+        return tryAdd({ d: "iface", name: this.fresh("I"), params: [], ext: [], props: o.props, index: o.index, doc, splitAt: o.props.length >= 2 && r.chance(0.15) ? 1 + r.below(o.props.length - 1) : 0 });
       }
       case "litUnion":
         return tryAdd({ d: "alias", name: this.fresh("L"), params: [], t: r.chance(0.7) ? A.union(r.shuffle(STR_LITS.filter((s) => s !== "")).slice(0, 2 + r.below(3)).map((s) => A.lit(s))) : this.litUnion(), doc });
@@ -604,6 +605,8 @@ export class TypeGen {
           [1, () => A.ref("X")],
           [f.recursion ? 2 : 0, () => A.obj([A.prop("item", A.ref("X")), A.prop("next", A.ref(name, params.map((p) => A.ref(p))), true)])],
           [1, () => A.tuple([A.ref("X"), A.ref(two ? "Y" : "X")])],
+          // a conditional type over the naked parameter (distributes over a union argument)
+          [f.conditional !== false ? 2 : 0, () => ({ k: "cond", check: A.ref("X"), ext: r.pick([A.kw("string"), A.kw("number"), A.union([A.kw("string"), A.kw("null")]), A.lit("a")]), a: r.pick([A.lit("yes"), A.arr(A.ref("X")), A.ref("X"), A.obj([A.prop("hit", A.ref("X"))])]), b: r.pick([A.lit("no"), A.kw("never"), A.kw("null"), A.obj([A.prop("miss", A.lit(true))])]) })],
           // a generic instantiated inside another one whose parameter has the same name, with an
           // argument that differs from the outer parameter
           [
